@@ -135,7 +135,7 @@ def run_program(src, pair, prog, lazy, chunk_K=None, twin=False):
         return None, [("err", "read: " + o[1])]
     pool = list(o[1])
     outs = []
-    for op in prog[1:]:
+    for step_, op in enumerate(prog[1:], start=1):
         name = op["op"]
         t = pool[op["t"] - 1]
         if name == "len":
@@ -170,7 +170,7 @@ def run_program(src, pair, prog, lazy, chunk_K=None, twin=False):
             r = outcome(do)
         elif name == "concat":
             u0 = pool[op["u"] - 1]
-            if twin and op["u"] == 1 and first["op"] == "read" and not any(q["op"] == "assign" and q["t"] == 1 for q in prog[1:prog.index(op)]):
+            if twin and op["u"] == 1 and first["op"] == "read" and not any(q["op"] == "assign" and q["t"] == 1 for q in prog[1:step_]):
                 # the same entries read through a second reader object (the same file opened twice): an equal table of another lazy class
                 u0 = tk.open_table(src.fmt, src.data, lazy).read()
 
